@@ -3,11 +3,11 @@
     storage-level facts that make this visit every entity alive at loop start exactly once are:
     removing position d relocates only the former last entity (into d) and leaves every position
     below d untouched, len drops by one, and the destroyed handle is stored nowhere afterwards.
-    (The loop itself is modelled in World.iterd_arch and tied to the implementation by stream S6;
-    its inductive proof is not yet part of the development: see DESIGN.md.) *)
+    The loop itself (World.iterd_arch, tied to the implementation by stream S6) is then proved by
+    induction over the reverse index for every decision sequence. *)
 From Coq Require Import NArith.
 From stdpp Require Import base list.
-From Gecs Require Import Prim ExtrQuery Storage VersionFacts StorageInv StorageResolve StorageHist StorageOps RunFacts Examples.
+From Gecs Require Import Prim ExtrQuery Storage Query World Run VersionFacts StorageInv StorageResolve StorageHist StorageOps RunFacts WorldInv LoopFacts Examples.
 Local Open Scope nat_scope.
 
 (** positions below the removed one keep their entity and values (these are the ones still to visit). *)
@@ -38,3 +38,57 @@ Proof. exact hist_destroyed. Qed.
 Theorem C07_direct_handle_is_current : iter_destroy_version_in_loop = true /\
   forall cfg s d e, Inv s -> ents s !! d = Some e -> resolve_direct cfg s (direct_of s d) = ROk (Some (eslot e, d)).
 Proof. split; [reflexivity|exact direct_accepted_at_issue]. Qed.
+
+(* ---------------------------------------------------------------- the loop *)
+
+(** ecs_iter_destroy! over one archetype, for every decision sequence, when it returns normally:
+    k visits of the distinct positions len-1, len-2, .., each seeing the original row of that position
+    and a direct handle that is accepted and designates it; the loop stops exactly at the first
+    Break/BreakDestroy; and the rows (handle with values) present afterwards are exactly the original
+    rows that were not both visited and flagged ContinueDestroy/BreakDestroy. *)
+Theorem C07_loop_visits_once_and_destroys_exactly_the_flagged :
+  forall cfg ad acc nz decs s ord din s1 recs ds ord1 stp din1,
+  iter_destroy_version_in_loop = true -> wf_access ad acc -> SInv ad s ->
+  iterd_arch cfg (len s) s (version s) acc nz ord decs din = Ok (s1, recs, ds, ord1, stp, din1) tt ->
+  exists k, ord1 = ord + k /\ length recs = k /\ k <= len s /\ SInv ad s1 /\
+    (forall t, t < k -> exists rec, recs !! t = Some rec /\ visit_ok cfg ad acc s (len s - 1 - t) rec) /\
+    match stp with
+    | SNone => k = len s /\ (forall t, t < k -> breaks (dec_at decs (ord + t)) = false)
+    | SBreak => 1 <= k /\ breaks (dec_at decs (ord + (k - 1))) = true /\ (forall t, t + 1 < k -> breaks (dec_at decs (ord + t)) = false)
+    | SPanic => False
+    end /\
+    (forall x, (exists j, j < len s1 /\ abs_at s1 j = Some x) <->
+               (exists i, i < len s /\ abs_at s i = Some x /\
+                          ~ (len s - 1 - i < k /\ destroys (dec_at decs (ord + (len s - 1 - i))) = true))).
+Proof. exact iterd_arch_whole. Qed.
+
+(** A loop that panics (closure panic, component Drop panic, generation overflow) or returns
+    normally leaves every storage invariant, and is never undefined behaviour. *)
+Theorem C07_loop_never_ub : forall cfg d decs archs w, Forall2 SInv archs w ->
+  forall plan ord din, wf_plan archs plan ->
+  match iterd_world cfg d archs w plan ord decs din with
+  | Ok (w', recs, ds, din1) _ | Panic _ (w', recs, ds, din1) => Forall2 SInv archs w' /\ Forall hpair32 ds
+  | UB => False
+  end.
+Proof. exact iterd_world_ok. Qed.
+
+(** Break/BreakDestroy ends the whole query: later archetypes are returned untouched. *)
+Theorem C07_break_ends_the_whole_query : forall cfg d a ar s wr acc pr ord decs din s1 recs ds ord1 din1,
+  iterd_arch cfg (len s) s (version s) acc (nz_cols d a) ord decs din = Ok (s1, recs, ds, ord1, SBreak, din1) tt ->
+  iterd_world cfg d (a :: ar) (s :: wr) (Some acc :: pr) ord decs din = Ok (s1 :: wr, recs, ds, din1) tt.
+Proof. exact iterd_world_break. Qed.
+
+(** Non-vacuity: the hypotheses hold of a concrete three-entity storage, and a loop with decisions
+    Continue, ContinueDestroy, Break visits 515, 259, 3 (reverse dense order), removes 259 only, and
+    hands the third visit a direct handle with the version the removal produced. *)
+Definition c07_ad : darch := DA 3%N 0 [DC 0%N 0; DC 1%N 1].
+Definition c07_acc : list access := [AEnt; ACol 0 false false; ADir].
+Example C07_hypotheses_hold : SInv c07_ad ex3 /\ wf_access c07_ad c07_acc.
+Proof. split; [split_and!; [exact ex3_inv|reflexivity|reflexivity]|]. repeat constructor. Qed.
+Example C07_concrete_loop :
+  match iterd_arch ex_cfg (len ex3) ex3 (version ex3) c07_acc 2%N 0 [DContinue; DContinueDestroy; DBreak] 0%N with
+  | Ok (s1, recs, ds, ord1, stp, _) _ =>
+      ents s1 = [(3, 1); (515, 1)]%N /\ cols s1 = [[10; 30]; [11; 31]]%N /\ ds = [(515, 1); (259, 1); (3, 2)]%N /\ ord1 = 3 /\ stp = SBreak
+  | _ => False
+  end.
+Proof. vm_compute. repeat split; reflexivity. Qed.
